@@ -180,7 +180,12 @@ func ruleC13_2(c *Ctx) {
 	c.check(org(elem) == "p1[*]", R, fn, "digest stored under the requested algorithm name", store.Pos(), "result[hashAlgorithms[i]]", "digest stored under "+org(elem))
 	okCtor := false
 	if dc, ok := resolve(hh.Common().Args[0], hh).(*ssa.Call); ok && calleeName(dc) == "dynamic" {
-		if lk, ok := resolve(dc.Call.Value, dc).(*ssa.Lookup); ok {
+		cv := resolve(dc.Call.Value, dc)
+		// the value of a comma-ok lookup is the same constructor
+		if ex, ok := cv.(*ssa.Extract); ok && ex.Index == 0 {
+			cv = ex.Tuple
+		}
+		if lk, ok := cv.(*ssa.Lookup); ok {
 			okCtor = resolve(lk.Index, lk) == elem && org(lk.X) == "in_toto.getHashMapping()"
 		}
 	}
@@ -270,24 +275,26 @@ func ruleC13_3(c *Ctx) {
 	}
 	c.check(okDir, R, fn, "directories are not hashed", ra.Pos(), "RecordArtifact only where info.IsDir() is false", "directories can reach RecordArtifact")
 	// (iii) directory symlinks only under followSymlinkDirs
-	rec := firstCall(cb, "in_toto.recordArtifacts")
+	sf := c.symlinkFrameOf(cb)
+	sfr, so := sf.fr, sf.so
+	rec := firstCall(sfr, "in_toto.recordArtifacts")
 	okFollow := false
 	if rec != nil {
 		// there is a return-nil block under (target.IsDir() true, followSymlinkDirs false); recursion not under that
-		for _, b := range cb.Blocks {
+		for _, b := range sfr.Blocks {
 			for _, in := range b.Instrs {
 				if u, ok := in.(*ssa.If); ok {
 					_ = u
 				}
 			}
 		}
-		for _, call := range callsIn(cb, "iface:os.FileInfo.IsDir") {
-			if org(call.Common().Value) == "p1" {
+		for _, call := range callsIn(sfr, "iface:os.FileInfo.IsDir") {
+			if sf.via == nil && org(call.Common().Value) == "p1" {
 				continue
 			}
 			// target info
-			for _, b := range cb.Blocks {
-				if c.condAt(call.Value(), true, b) && c.condAtFree(cb, "followSymlinkDirs", false, b) {
+			for _, b := range sfr.Blocks {
+				if c.condAt(call.Value(), true, b) && c.flagFalseAt(sf, b) {
 					if r, ok := b.Instrs[len(b.Instrs)-1].(*ssa.Return); ok && isNilConst(r.Results[0]) {
 						okFollow = !reachesBlock(b, rec.Block())
 					}
@@ -296,9 +303,9 @@ func ruleC13_3(c *Ctx) {
 		}
 		// the same with the "target is a directory" flag handed back by a transparent helper (Stat of the evaluated link)
 		if !okFollow {
-			for _, b := range cb.Blocks {
+			for _, b := range sfr.Blocks {
 				r, isRet := b.Instrs[len(b.Instrs)-1].(*ssa.Return)
-				if !isRet || !isNilConst(r.Results[0]) || !c.condAtFree(cb, "followSymlinkDirs", false, b) {
+				if !isRet || !isNilConst(r.Results[0]) || !c.flagFalseAt(sf, b) {
 					continue
 				}
 				for _, ft := range c.factsAt(b) {
@@ -313,8 +320,8 @@ func ruleC13_3(c *Ctx) {
 	c.check(okFollow, R, fn, "(iii) a symlinked directory is followed only on request", cb.Pos(), "target.IsDir() && !followSymlinkDirs => return nil before the recursion", "directory symlinks are followed (or skipped) regardless of followSymlinkDirs")
 	// (iv) cycle error
 	okCyc := false
-	for _, has := range callsIn(cb, "(in_toto.Set).Has") {
-		if org(has.Common().Args[0]) == "fv:visitedSymlinks" && org(has.Common().Args[1]) == "p0" {
+	for _, has := range callsIn(sfr, "(in_toto.Set).Has") {
+		if so(has.Common().Args[0]) == "fv:visitedSymlinks" && so(has.Common().Args[1]) == "p0" {
 			for _, cu := range condUsers(has.Value(), false) {
 				tb := branchTaken(cu, true)
 				if r, ok := tb.Instrs[len(tb.Instrs)-1].(*ssa.Return); ok && len(r.Results) == 1 && (strings.Contains(org(r.Results[0]), "ErrSymCycle") || isCycleError(r.Results[0])) {
@@ -325,15 +332,15 @@ func ruleC13_3(c *Ctx) {
 	}
 	c.check(okCyc, R, fn, "(iv) a symlink visited twice is a cycle error", cb.Pos(), "visited.Has(path) => return ErrSymCycle; recursion only on the other side", "symlink cycles are not reported as ErrSymCycle before recursing")
 	okAdd := false
-	for _, add := range callsIn(cb, "(in_toto.Set).Add") {
-		if org(add.Common().Args[0]) == "fv:visitedSymlinks" && org(add.Common().Args[1]) == "p0" && rec != nil && instrDominates(add, rec) {
+	for _, add := range callsIn(sfr, "(in_toto.Set).Add") {
+		if so(add.Common().Args[0]) == "fv:visitedSymlinks" && so(add.Common().Args[1]) == "p0" && rec != nil && instrDominates(add, rec) {
 			okAdd = true
 		}
 	}
 	c.check(okAdd, R, fn, "followed symlinks are remembered before recursing", cb.Pos(), "visited.Add(path) dominates the recursive call", "the visited set is not updated before following a symlink")
 	if rec != nil {
 		a := rec.Common().Args
-		c.check(strings.Contains(org(a[0]), "local(slicelit)") && org(a[6]) == "fv:visitedSymlinks" && org(a[5]) == "fv:followSymlinkDirs" && org(a[2]) == "fv:gitignorePatterns" && org(a[1]) == "fv:hashAlgorithms" && org(a[4]) == "fv:lineNormalization",
+		c.check(strings.Contains(so(a[0]), "local(slicelit)") && so(a[6]) == "fv:visitedSymlinks" && so(a[5]) == "fv:followSymlinkDirs" && so(a[2]) == "fv:gitignorePatterns" && so(a[1]) == "fv:hashAlgorithms" && so(a[4]) == "fv:lineNormalization",
 			R, fn, "recursion passes the same options and the same visited set", rec.Pos(), "recordArtifacts([target], same options, visited)", "the recursive call changes options or uses another visited set")
 	}
 	// (v) uniqueness
@@ -1142,4 +1149,61 @@ func isCycleError(v ssa.Value) bool {
 		}
 	}
 	return found
+}
+
+// symlinkFrame: the function that holds the symlink branch of the walk callback: the callback itself, or an unexported
+// helper it calls with the walked path, whose error the callback returns. so renders a value of the frame as the
+// callback would (helper parameters replaced by the access paths of the arguments).
+type symlinkFrame struct {
+	fr  *ssa.Function
+	via ssa.CallInstruction
+	so  func(v ssa.Value) string
+}
+
+func (c *Ctx) symlinkFrameOf(cb *ssa.Function) symlinkFrame {
+	direct := symlinkFrame{fr: cb, so: org}
+	if firstCall(cb, "in_toto.recordArtifacts") != nil {
+		return direct
+	}
+	for _, via := range allCalls(cb) {
+		h := via.Common().StaticCallee()
+		if !c.isStageHelper(h) || firstCall(h, "in_toto.recordArtifacts") == nil {
+			continue
+		}
+		// the helper's error is what the callback returns
+		okErr := false
+		if e := errResult(via); e != nil {
+			if flowsTo(e, func(u ssa.Instruction, _ ssa.Value) bool { _, ok := u.(*ssa.Return); return ok }, nil) {
+				okErr = true
+			}
+			for _, br := range errBranches(e) {
+				okErr = okErr || c.failing(br.NonNil)
+			}
+		}
+		if !okErr {
+			continue
+		}
+		subst := map[*ssa.Parameter]string{}
+		for i, prm := range h.Params {
+			if i < len(via.Common().Args) {
+				subst[prm] = org(via.Common().Args[i])
+			}
+		}
+		return symlinkFrame{fr: h, via: via, so: func(v ssa.Value) string { return orgSubst(v, subst) }}
+	}
+	return direct
+}
+
+// flagFalseAt: the followSymlinkDirs option (a captured variable of the callback, or the helper parameter it is handed
+// to) is known false at b.
+func (c *Ctx) flagFalseAt(sf symlinkFrame, b *ssa.BasicBlock) bool {
+	if sf.via == nil {
+		return c.condAtFree(sf.fr, "followSymlinkDirs", false, b)
+	}
+	for i, prm := range sf.fr.Params {
+		if i < len(sf.via.Common().Args) && org(sf.via.Common().Args[i]) == "fv:followSymlinkDirs" && c.condAt(prm, false, b) {
+			return true
+		}
+	}
+	return false
 }
